@@ -263,6 +263,25 @@ func runC04(c *core.Ctx) {
 			r += 2 // quick: every third code point above U+0800 (3 and 256 are coprime: every low byte occurs in every block)
 		}
 	}
+	// strings whose checksum is right for another final constant (Bech32m 0x2bc830a3, 0, all ones, single bits): not BIP-173
+	{
+		consts := []uint32{0x2bc830a3, 0, 2, 3, 0x3fffffff, 0x3b6a57b2}
+		for k := uint(0); k < 30; k++ {
+			consts = append(consts, 1<<k, 1^(1<<k))
+		}
+		for _, h := range []string{"a", "iota", "tb", "!~"} {
+			for _, sym := range [][]byte{nil, {0}, {31, 0, 7}, {3, 9, 17, 30, 1, 0, 0, 4}} {
+				for _, k := range consts {
+					if k == 1 {
+						continue
+					}
+					v := rb.EncodeSymbolsConst(h, sym, k)
+					c04Judge(c, v, "foreign-checksum-constant")
+					c04Judge(c, rb.Upper(v), "foreign-checksum-constant")
+				}
+			}
+		}
+	}
 	// consumers of Decode inside the repository must cope with everything Decode accepts: valid strings with no or very
 	// little data through address.ParseBech32 (an error is fine, a panic is not)
 	for _, h := range []string{"iota", "atoi", "smr", "rms", "a"} {
